@@ -2,3 +2,4 @@
 import AikenVerif.Props.C15
 import AikenVerif.Props.C03
 import AikenVerif.Props.C05
+import AikenVerif.Props.C16
